@@ -275,3 +275,18 @@ def ref_set_child_value(version, state, node, child, value_type, value):
         return "ok", emits
     emits.append((node, child, 1, value_type, value))
     return "ok", emits
+
+
+def ref_update_fw(state, node_ids, fw_id, fware):
+    """Controller call update_fw(nids, type, version, image): the image is stored under its id and
+    every *known* node of the list is (re)scheduled: any earlier session of it restarts from the
+    config step and a reboot is requested."""
+    ota = state["ota"]
+    ota["firmware"][fw_id] = fware
+    for nid in node_ids:
+        if nid not in state["nodes"]:
+            continue
+        ota["unstarted"].pop(nid, None)
+        ota["started"].pop(nid, None)
+        ota["requested"][nid] = fw_id
+        state["nodes"][nid]["reboot"] = True
